@@ -5,6 +5,7 @@ import LdarModel.Props.C03
 import LdarModel.Props.C04
 import LdarModel.Props.C05
 import LdarModel.Props.C08
+import LdarModel.Props.C09
 import LdarModel.Props.C10
 import LdarModel.Props.C11
 import LdarModel.Props.C13
